@@ -31,7 +31,7 @@ def clause_tables(rep):
 
 def run(rep):
     return generic.run_generic(
-        rep, tc.NAV_FUNCS + [(tc.GT, 'new group'), ('sqlparse.engine.grouping.group_where', 'call sites')],
+        rep, tc.NAV_FUNCS + [(tc.GT, 'new group'), ('sqlparse.engine.grouping.group_where', 'call sites')] + tc.JOINER_FUNCS,
         structural=[clause_tables, tc.identity_side_conditions],
         assumptions=['proved: the first-match search (token_next_by -> _token_matching) that finds the clause-closing keyword, '
                      'and group_tokens creating exactly the requested span; group_where, get_parameters, get_cases and the '
